@@ -23,6 +23,8 @@ def op(I, o):
     t = o["t"]
     if t == "ev":
         return "OEv %s %s %d" % (st(o["s"]), ev(I, o["ev"]), o.get("d", 0))
+    if t == "fail":
+        return "OFailNext %s" % st(o["s"])
     if t == "hdr":
         return "OWriteHeader %d%%Z %d" % (o["code"], o.get("d", 0))
     if t == "body":
@@ -34,6 +36,10 @@ def outp(I, o):
     t = o["t"]
     if t == "store":
         return "TStore %s [%s]" % (st(o["s"]), "; ".join(ev(I, e) for e in o.get("evs") or []))
+    if t == "err":
+        return "TErr"
+    if t == "panic":
+        return "TPanic"
     if t == "hdr":
         return "THdr %d%%Z" % o["code"]
     if t == "body":
@@ -159,10 +165,10 @@ def run(out, prelude):
         rule="random handler programs (VERIF_SEED) over put/del/delall on both stores, reads, header and body "
              "writes through 0-4 nested wrappers of both unwrap conventions, plus the public helpers "
              "(DelKnownSession/DelKnownCookie/FlashSuccess/FlashError) expanded to primitives; plus every program "
-             "of length <= %d over a 10-operation alphabet; non-trivial = at least one state change precedes the "
+             "of length <= %d over an 11-operation alphabet; non-trivial = at least one state change precedes the "
              "first write (so a store call must happen); distinct by operation list" % exh,
         samples=[dict(ops=c["ops"], trace=c["trace"]) for c in cases[:2]],
-        exhaustive_part="all programs of length <= %d over 10 operations (among them a zero-length write and an informational 103 status)" % exh,
+        exhaustive_part="all programs of length <= %d over 11 operations (among them a zero-length write, an informational 103 status and a failing cookie store)" % exh,
         traces_validated_against_impl=len(cases),
     )
     vlib.clean_cases("C11_gen")
